@@ -34,6 +34,9 @@ def check(k, seed):
             gk['scores'] = rng.choice(['AIC', 'BIC'])
         if rng.random() < 0.5:
             gk['mode'] = rng.choice(['prob', 'delta'])
+    if rng.random() < 0.2:
+        df = df.set_index('dt', drop=False)            # a frame whose index was made from a column (kept): still the documented format
+        desc = dict(desc, index='dt column promoted to the index')
     fails = []
     try:
         with warnings.catch_warnings():
